@@ -351,4 +351,215 @@ theorem dictEnts_closed (fx : Fix) (ctx : Ctx) (kvs : ObjL) (Q : Chk → Prop) :
           have := dictEnts_closed fx ctx kvs Q t _ chks h hacc' hl'
           exact ⟨this.1, by have := this.2; simp at this; omega⟩
 
+theorem streamEnts_closed (fx : Fix) (ctx : Ctx) (kvs : ObjL) (Q : Chk → Prop) :
+    ∀ (l : ChkL) (res : Option EK) (acc chks : List Pend), streamEnts fx ctx kvs l res acc = .ok chks →
+      (∀ p ∈ acc, p.1 ∈ kvs.vals ∧ Q p.2) → (∀ k ∈ l.chks, Q k) →
+      (∀ p ∈ chks, p.1 ∈ kvs.vals ∧ Q p.2) ∧ chks.length ≤ acc.length + l.chks.length
+  | .nil, res, acc, chks, h, hacc, _ => by
+    simp only [streamEnts] at h
+    split at h
+    · simp at h
+    · simp only [EntRes.ok.injEq] at h
+      subst h
+      exact ⟨fun p hp => hacc p (List.mem_reverse.mp hp), by simp⟩
+  | .cons key opt chk t, res, acc, chks, h, hacc, hl => by
+    have hl' : ∀ k ∈ t.chks, Q k := fun k hk => hl k (by simp [ChkL.chks, ChkL.toList] at hk ⊢; right; exact hk)
+    have hq : Q chk := hl chk (by simp [ChkL.chks, ChkL.toList])
+    have hlen : (ChkL.cons key opt chk t).chks.length = t.chks.length + 1 := by simp [ChkL.chks, ChkL.toList]
+    simp only [streamEnts] at h
+    split at h
+    · simp at h
+    · split at h
+      · have := streamEnts_closed fx ctx kvs Q t _ acc chks h hacc hl'; exact ⟨this.1, by omega⟩
+      · have := streamEnts_closed fx ctx kvs Q t _ acc chks h hacc hl'; exact ⟨this.1, by omega⟩
+      · have := streamEnts_closed fx ctx kvs Q t _ acc chks h hacc hl'; exact ⟨this.1, by omega⟩
+      · have := streamEnts_closed fx ctx kvs Q t _ acc chks h hacc hl'; exact ⟨this.1, by omega⟩
+      · rename_i v hget _
+        split at h
+        · have := streamEnts_closed fx ctx kvs Q t _ acc chks h hacc hl'; exact ⟨this.1, by omega⟩
+        · have hacc' : ∀ p ∈ (v, chk) :: acc, p.1 ∈ kvs.vals ∧ Q p.2 := by
+            intro p hp
+            simp only [List.mem_cons] at hp
+            rcases hp with hp | hp
+            · subst hp; exact ⟨get_mem_vals kvs key v hget, hq⟩
+            · exact hacc p hp
+          have := streamEnts_closed fx ctx kvs Q t _ _ chks h hacc' hl'
+          exact ⟨this.1, by have := this.2; simp at this; omega⟩
+
+theorem starEnts_closed (fx : Fix) (specified : List Bytes) (sopt : KeySpec) (schk r : Chk) (V : Obj → Prop) :
+    ∀ (l : List (Bytes × Obj)) (acc chks : List Pend), starEnts fx specified sopt schk r l acc = .ok chks →
+      (∀ p ∈ acc, V p.1 ∧ p.2 = schk) → (∀ kv ∈ l, V kv.2) →
+      (∀ p ∈ chks, V p.1 ∧ p.2 = schk) ∧ chks.length ≤ acc.length + l.length
+  | [], acc, chks, h, hacc, _ => by
+    simp only [starEnts, EntRes.ok.injEq] at h
+    subst h
+    exact ⟨fun p hp => hacc p (List.mem_reverse.mp hp), by simp⟩
+  | (k, v) :: t, acc, chks, h, hacc, hl => by
+    have hl' : ∀ kv ∈ t, V kv.2 := fun kv hk => hl kv (by simp [hk])
+    have hv : V v := hl (k, v) (by simp)
+    simp only [starEnts] at h
+    split at h
+    · have := starEnts_closed fx specified sopt schk r V t acc chks h hacc hl'
+      exact ⟨this.1, by have := this.2; simp; omega⟩
+    · split at h
+      · simp at h
+      · split at h
+        · have := starEnts_closed fx specified sopt schk r V t acc chks h hacc hl'
+          exact ⟨this.1, by have := this.2; simp; omega⟩
+        · have hacc' : ∀ p ∈ (v, schk) :: acc, V p.1 ∧ p.2 = schk := by
+            intro p hp
+            simp only [List.mem_cons] at hp
+            rcases hp with hp | hp
+            · subst hp; exact ⟨hv, rfl⟩
+            · exact hacc p hp
+          have := starEnts_closed fx specified sopt schk r V t _ chks h hacc' hl'
+          exact ⟨this.1, by have := this.2; simp at this ⊢; omega⟩
+
+theorem zipHet_closed : ∀ (xs : List Obj) (cs : List Chk),
+    (∀ p ∈ zipHet xs cs, p.1 ∈ xs ∧ p.2 ∈ cs) ∧ (zipHet xs cs).length ≤ xs.length
+  | [], cs => by simp [zipHet]
+  | x :: xs, [] => by simp [zipHet]
+  | x :: xs, c :: cs => by
+    have ih := zipHet_closed xs cs
+    simp only [zipHet, List.mem_cons, List.length_cons]
+    refine ⟨?_, by omega⟩
+    intro p hp
+    rcases hp with hp | hp
+    · subst hp; simp
+    · have := ih.1 p hp; exact ⟨Or.inr this.1, Or.inr this.2⟩
+
+theorem ofPred_not_push (r : Option EK) :
+    (∀ ps, ofPred r ≠ .push ps) ∧ (∀ p, ofPred r ≠ .ret p) ∧ (∀ ps, ofPred r ≠ .pushRaw ps) := by
+  cases r <;> simp [ofPred]
+
+theorem ofEntRes_push (fx : Fix) (a : Attr) (o : Obj) (r : EntRes) :
+    (∀ ps, ofEntRes fx a o r = .push ps → r = .ok ps) ∧ (∀ p, ofEntRes fx a o r ≠ .ret p) ∧
+    (∀ ps, ofEntRes fx a o r ≠ .pushRaw ps) := by
+  cases r with
+  | hard k => simp [ofEntRes]
+  | fail k => simp [ofEntRes]
+  | ok chks =>
+    simp only [ofEntRes]
+    split
+    · split <;> simp
+    · simp
+
+def PushOK (o : Obj) (c : Chk) (a : Act) : Prop :=
+  (∀ ps, a = .push ps →
+    (∀ p ∈ ps, p.1 ∈ objKids o ∧ p.2 ∈ chkKids c) ∧ ps.length ≤ (objKids o).length + (chkKids c).length) ∧
+  (∀ p, a ≠ .ret p) ∧ (∀ ps, a ≠ .pushRaw ps)
+
+theorem pushOK_fail (o : Obj) (c : Chk) (k : EK) : PushOK o c (.fail k) := by simp [PushOK]
+theorem pushOK_hard (o : Obj) (c : Chk) (k : EK) : PushOK o c (.hard k) := by simp [PushOK]
+theorem pushOK_ofPred (o : Obj) (c : Chk) (r : Option EK) : PushOK o c (ofPred r) := by
+  cases r <;> simp [PushOK, ofPred]
+
+theorem pushOK_ofEntRes (fx : Fix) (a : Attr) (o o' : Obj) (c : Chk) (r : EntRes)
+    (h : ∀ ps, r = .ok ps →
+      (∀ p ∈ ps, p.1 ∈ objKids o ∧ p.2 ∈ chkKids c) ∧ ps.length ≤ (objKids o).length + (chkKids c).length) :
+    PushOK o c (ofEntRes fx a o' r) := by
+  have := ofEntRes_push fx a o' r
+  exact ⟨fun ps hps => h ps (this.1 ps hps), this.2.1, this.2.2⟩
+
+theorem checkShape_closed (fx : Fix) (ctx : Ctx) (o : Obj) (c : Chk) : PushOK o c (checkShape fx ctx o c) := by
+  cases c with
+  | named n => exact pushOK_hard _ _ _
+  | disj a os => exact pushOK_hard _ _ _
+  | any a => exact pushOK_ofPred _ _ _
+  | prim a p =>
+    simp only [checkShape]
+    split
+    · exact pushOK_ofPred _ _ _
+    · exact pushOK_fail _ _ _
+  | array a elem size =>
+    cases o with
+    | arr xs =>
+      simp only [checkShape]
+      split
+      · exact pushOK_fail _ _ _
+      · split
+        · exact pushOK_hard _ _ _
+        · split
+          · exact pushOK_ofPred _ _ _
+          · apply pushOK_ofEntRes
+            intro ps hps
+            simp only [EntRes.ok.injEq] at hps
+            subst hps
+            refine ⟨?_, by simp [objKids]⟩
+            intro p hp
+            simp only [List.mem_map] at hp
+            obtain ⟨e, he, rfl⟩ := hp
+            exact ⟨by simpa [objKids] using he, by simp [chkKids]⟩
+    | _ => exact pushOK_fail _ _ _
+  | het a elems =>
+    cases o with
+    | arr xs =>
+      simp only [checkShape]
+      split
+      · exact pushOK_fail _ _ _
+      · apply pushOK_ofEntRes
+        intro ps hps
+        simp only [EntRes.ok.injEq] at hps
+        subst hps
+        have := zipHet_closed xs.vals elems.chks
+        exact ⟨fun p hp => by simpa [objKids, chkKids] using this.1 p hp, by simp [objKids]; omega⟩
+    | _ => exact pushOK_fail _ _ _
+  | dict a ents =>
+    cases o with
+    | dict kvs =>
+      simp only [checkShape]
+      apply pushOK_ofEntRes
+      intro ps hps
+      have := dictEnts_closed fx ctx kvs (fun k => k ∈ ents.chks) ents [] ps hps (by simp) (fun k hk => hk)
+      exact ⟨fun p hp => by simpa [objKids, chkKids] using this.1 p hp, by have := this.2; simp [chkKids] at this ⊢; omega⟩
+    | _ => exact pushOK_fail _ _ _
+  | stream a ents =>
+    cases o with
+    | stream kvs st ct =>
+      simp only [checkShape]
+      apply pushOK_ofEntRes
+      intro ps hps
+      have := streamEnts_closed fx ctx kvs (fun k => k ∈ ents.chks) ents none [] ps hps (by simp) (fun k hk => hk)
+      exact ⟨fun p hp => by simpa [objKids, chkKids] using this.1 p hp, by have := this.2; simp [chkKids] at this ⊢; omega⟩
+    | _ => exact pushOK_fail _ _ _
+  | dictStar a ents sopt schk =>
+    cases o with
+    | dict kvs =>
+      simp only [checkShape]
+      cases h1 : dictEnts fx ctx kvs ents [] with
+      | hard k => exact pushOK_hard _ _ _
+      | fail k => exact pushOK_fail _ _ _
+      | ok chks =>
+        simp only []
+        have c1 := dictEnts_closed fx ctx kvs (fun k => k ∈ ents.chks) ents [] chks h1 (by simp) (fun k hk => hk)
+        cases h2 : resolve ctx schk with
+        | none => exact pushOK_hard _ _ _
+        | some r =>
+          simp only []
+          cases h3 : starEnts fx (ents.toList.map (·.1)) sopt schk r kvs.toList [] with
+          | hard k => exact pushOK_hard _ _ _
+          | fail k => exact pushOK_fail _ _ _
+          | ok chks2 =>
+            simp only []
+            have c2 := starEnts_closed fx _ sopt schk r (fun v => v ∈ kvs.vals) kvs.toList [] chks2 h3 (by simp)
+              (fun kv hkv => toList_mem_vals kvs kv.1 kv.2 hkv)
+            apply pushOK_ofEntRes
+            intro ps hps
+            simp only [EntRes.ok.injEq] at hps
+            subst hps
+            refine ⟨?_, ?_⟩
+            · intro p hp
+              simp only [List.mem_append] at hp
+              rcases hp with hp | hp
+              · have := c1.1 p hp
+                exact ⟨by simpa [objKids] using this.1, by simp [chkKids]; left; exact this.2⟩
+              · have := c2.1 p hp
+                exact ⟨by simpa [objKids] using this.1, by simp [chkKids]; right; exact this.2⟩
+            · have l1 := c1.2
+              have l2 := c2.2
+              have l3 : kvs.toList.length = kvs.vals.length := by simp [ObjL.vals]
+              simp [objKids, chkKids] at l1 l2 ⊢
+              omega
+    | _ => exact pushOK_fail _ _ _
+
 end Parsley.TC.Term
